@@ -89,7 +89,7 @@ Fixpoint height (t : tree) : nat :=
   match t with Leaf _ => 0%nat | Inner _ last => S (height last) end.
 
 (** every leaf of [t] is exactly [d] levels below the top *)
-Fixpoint depth_ok (d : nat) (t : tree) : bool :=
+Fixpoint depth_ok (d : nat) (t : tree) {struct t} : bool :=
   match t with
   | Leaf _ => Nat.eqb d 0
   | Inner cs last =>
@@ -361,4 +361,66 @@ Fixpoint sinsert (k : Z) (l : list Z) : list Z :=
   match l with
   | [] => [k]
   | x :: r => if k <? x then k :: l else if k =? x then l else x :: sinsert k r
+  end.
+
+(** Specification of the results reported by a history of insertions: an insertion reports
+    success iff its key is neither in the initial set nor inserted earlier in the history. *)
+Definition memz (k : Z) (l : list Z) : bool := existsb (Z.eqb k) l.
+Fixpoint fresh_flags (seen : list Z) (ks : list Z) : list bool :=
+  match ks with
+  | [] => []
+  | k :: r => negb (memz k seen) :: fresh_flags (k :: seen) r
+  end.
+(** how often the insertion of key [x] reported success in a history *)
+Definition successes (x : Z) (ks : list Z) (flags : list bool) : nat :=
+  length (filter (fun p : Z * bool => (fst p =? x) && snd p) (combine ks flags)).
+
+(** Sorted-list specification of set removal (statements about erase steps). *)
+Definition sremove (k : Z) (l : list Z) : list Z := filter (fun x => negb (x =? k)) l.
+
+(** * Operation hints
+    [btree::find/lower_bound/upper_bound] with [operation_hints] start the descent at a cached
+    node when [covers] ([coversUpperBound] for upper_bound) accepts it instead of at the root. *)
+Definition node_keys (t : tree) : list Z :=
+  match t with Leaf ks => ks | Inner cs _ => map snd cs end.
+
+(** [btree::covers] for sets: node not empty, !(k < keys[0]) and !(keys[n-1] < k) *)
+Definition covers (h : tree) (k : Z) : bool :=
+  match node_keys h with
+  | [] => false
+  | x :: r => negb (k <? x) && negb (List.last r x <? k)
+  end.
+(** [btree::coversUpperBound]: !(k < keys[0]) and k < keys[n-1] *)
+Definition covers_upper (h : tree) (k : Z) : bool :=
+  match node_keys h with
+  | [] => false
+  | x :: r => negb (k <? x) && (k <? List.last r x)
+  end.
+
+(** [h] is a node of the tree [t] (the hint caches hold pointers to nodes of the tree) *)
+Inductive subtree (h : tree) : tree -> Prop :=
+| sub_here : subtree h h
+| sub_child cs last c s : In (c, s) cs -> subtree h c -> subtree h (Inner cs last)
+| sub_last cs last : subtree h last -> subtree h (Inner cs last).
+
+(** * The implementers' own check, [node::check] of BTree.h (without the pointer links, which
+    the dump does not show): numElements <= maxKeys; for a non-first child the separator on the
+    left is below keys[0]; for a non-last child keys[n-1] is below the separator on the right;
+    node keys ascend; recursively for the children. *)
+Definition first_above (lo : option Z) (ks : list Z) : bool :=
+  match ks with [] => true | x :: _ => above lo x end.
+Definition last_below (ks : list Z) (hi : option Z) : bool :=
+  match ks with [] => true | x :: r => below (List.last r x) hi end.
+
+Fixpoint check (mx : nat) (lo hi : option Z) (t : tree) : bool :=
+  match t with
+  | Leaf ks => Nat.leb (length ks) mx && first_above lo ks && last_below ks hi && asc None None ks
+  | Inner cs last =>
+      Nat.leb (length cs) mx && first_above lo (map snd cs) && last_below (map snd cs) hi
+      && asc None None (map snd cs)
+      && (fix go (lo : option Z) (cs : list (tree * Z)) {struct cs} : bool :=
+            match cs with
+            | [] => check mx lo None last
+            | (c, s) :: cs' => check mx lo (Some s) c && go (Some s) cs'
+            end) None cs
   end.
